@@ -118,6 +118,22 @@ CLAIMS = {
               "by sampling and decided examples, not proved for all texts; definition-file heuristics are outside the family."),
         technique="Lean 4 proof (decision-list case analysis, list filter laws, digit-string lemmas) + per-site differential check",
         ref="DESIGN.md §3 C02"),
+    "C03": dict(
+        text=("Kernel-checked theorems about the DRY pipeline model on projects as token lists (original line, normalised text), for every "
+              "project, window size and min_occurrences: every named location is a stored window with the same normalised text "
+              "(refs_same_snippet), every violation is a real window and its count meets min_occurrences, the report only removes raw "
+              "violations, no duplicated window text => no violation, both greedy passes are maximal (every input kept or overlapping a "
+              "kept one), and - after the repair of the overlap test - every non-overlapping occurrence of every duplicated window is "
+              "reported or starts inside a reported violation of its file (every_occurrence_covered: completeness and mutuality, no "
+              "hypothesis about interleaved comments). The pipeline model is executed on the generator's token lists and compared with "
+              "`thailint dry` on Python projects; an independent text oracle re-reads every reported/named range; coverage, mutuality and "
+              "count are checked on the real output (TypeScript too). One genuine defect repaired (fix: 7307320)."),
+        note=("hash() is modelled as collision-free (text oracle would expose a collision); single-statement detection and block filters "
+              "are assumed identity on the Python statement pools; the TypeScript single-statement heuristics are not modelled (TS "
+              "projects get the property oracles only); count = size of the greedy selection (maximal; optimality for equal-length "
+              "windows is not proved); SQLite is trusted."),
+        technique="Lean 4 proof (maximality / subset lemmas for the greedy passes, permutation of the sort) + pipeline differential check + text oracle",
+        ref="DESIGN.md §3 C03"),
 }
 ALL = [f"C{n:02d}" for n in range(1, 21)]
 NOT_YET = "machinery for this property is not built yet in this revision of /verif (planned, see DESIGN.md §3); not claimed"
